@@ -111,3 +111,51 @@ Proof.
     + rewrite Forall_forall in *. intros z Hz. apply Sr. apply by_priority_In. exact Hz.
     + intros H. rewrite H, Z.eqb_refl in E. discriminate.
 Qed.
+
+(* ---- the expiry index: what the dict operations do to its entries ---- *)
+Lemma xhas_in (k : Z) (t : xtable) : xhas k t = true <-> exists l, In (k, l) t.
+Proof.
+  unfold xhas. rewrite existsb_exists. split.
+  - intros [[k' l] [Hi E]]. cbn in E. apply Z.eqb_eq in E. subst k'. exists l. exact Hi.
+  - intros [l Hi]. exists (k, l). split; [exact Hi|cbn; apply Z.eqb_refl].
+Qed.
+
+Lemma xget_entry (k : Z) (t : xtable) x : In x (xget k t) -> exists l, In (k, l) t /\ In x l.
+Proof.
+  unfold xget. destruct (find (fun kv => fst kv =? k) t) as [[k' l]|] eqn:E; [|intros []].
+  apply find_some in E. destruct E as [Hi E]. cbn in E. apply Z.eqb_eq in E. subst k'. cbn [snd]. intros Hx. exists l. auto.
+Qed.
+
+Lemma xset_entries (k0 : Z) v (t : xtable) k l : In (k, l) (xset k0 v t) -> (k = k0 /\ l = v) \/ (In (k, l) t /\ k <> k0).
+Proof.
+  unfold xset. destruct (xhas k0 t) eqn:E.
+  - intros H. apply in_map_iff in H. destruct H as [[k' l'] [E2 Hi]]. cbn [fst] in E2. destruct (k' =? k0) eqn:E3.
+    + inversion E2; subst. left. auto.
+    + inversion E2; subst. right. split; [exact Hi|]. apply Z.eqb_neq. exact E3.
+  - intros H. apply in_app_iff in H. destruct H as [H|[H|[]]].
+    + right. split; [exact H|]. intros ->. assert (xhas k0 t = true) by (apply xhas_in; exists l; exact H). congruence.
+    + inversion H; subst. left. auto.
+Qed.
+
+Lemma NoDup_snoc {A} (l : list A) x : NoDup l -> ~ In x l -> NoDup (l ++ [x]).
+Proof.
+  induction l as [|y r IH]; intros ND Hn; cbn [app]; [constructor; [intros []|constructor]|].
+  apply NoDup_cons_iff in ND. destruct ND as [Hy ND]. constructor.
+  - intros H. apply in_app_iff in H. destruct H as [H|[H|[]]]; [exact (Hy H)|]. subst. apply Hn. left. reflexivity.
+  - apply IH; [exact ND|]. intros H. apply Hn. right. exact H.
+Qed.
+
+Lemma xset_keys (k0 : Z) v (t : xtable) : NoDup (map fst t) -> NoDup (map fst (xset k0 v t)).
+Proof.
+  intros ND. unfold xset. destruct (xhas k0 t) eqn:E.
+  - rewrite map_map. erewrite map_ext; [exact ND|]. intros [k l]. cbn [fst]. destruct (k =? k0) eqn:E2; [apply Z.eqb_eq in E2; subst; reflexivity|reflexivity].
+  - rewrite map_app. cbn [map fst]. apply NoDup_snoc; [exact ND|]. intros H. apply in_map_iff in H. destruct H as [[k l] [E2 Hi]].
+    cbn in E2. subst k. assert (xhas k0 t = true) by (apply xhas_in; exists l; exact Hi). congruence.
+Qed.
+
+Lemma xset_has (k0 : Z) v (t : xtable) : In (k0, v) (xset k0 v t).
+Proof.
+  unfold xset. destruct (xhas k0 t) eqn:E.
+  - apply xhas_in in E. destruct E as [l Hi]. apply in_map_iff. exists (k0, l). cbn [fst]. rewrite Z.eqb_refl. auto.
+  - apply in_app_iff. right. left. reflexivity.
+Qed.
